@@ -112,6 +112,10 @@ type pluginCfg struct {
 	Split     bool
 	FlushMs   int
 	Retry     int // retry option of the plugin (0 = 10)
+	// transport-failure cases (fleet.go)
+	Mult      int      `json:",omitempty"` // retention_exponentially_multiplier (0 = the default, 2)
+	GzipLevel string   `json:",omitempty"` // gzip_compression_level ("" = default)
+	Fleet     []string `json:",omitempty"` // endpoint kinds in configuration order (elasticsearch, http)
 	// elasticsearch
 	OpType      string
 	IndexFormat string
@@ -153,6 +157,15 @@ func (c *pluginCfg) tag() string {
 	}
 	if c.Retry > 0 {
 		t += fmt.Sprintf("|retry%d", c.Retry)
+	}
+	if c.Mult > 0 {
+		t += "|transport"
+		if c.GzipLevel != "" {
+			t += "|gz=" + c.GzipLevel
+		}
+		if len(c.Fleet) > 0 {
+			t += "|fleet=" + fleetTag(c.Fleet)
+		}
 	}
 	switch c.Plugin {
 	case "elasticsearch":
@@ -283,6 +296,14 @@ func newParams(ctl pipeline.OutputPluginController, avg int) *pipeline.OutputPlu
 
 var cfgParams = map[string]int{"gomaxprocs": 1, "capacity": 256}
 
+// clientTimeout: the sinks always answer (or cut the connection) at once, so
+// the HTTP client's timeouts never have to fire. With the defaults (1 s .. 5 s)
+// a child starved of CPU on a loaded machine can time out on a request the sink
+// has already accepted; the plugin then re-sends an acknowledged batch, which
+// looks like a duplicate. A stall that long ends at the batch watchdog
+// (inconclusive) instead.
+const clientTimeout = "10m"
+
 const hugeBytes = 1 << 40 // batch_size_bytes: reached only by the trigger event
 
 // startSession configures and starts the real plugin against its sink.
@@ -296,6 +317,9 @@ func startSession(c *pluginCfg, scratch string) (*session, error) {
 	wk := strconv.Itoa(c.Workers)
 	flush := fmt.Sprintf("%dms", c.FlushMs)
 	gz := "default"
+	if c.GzipLevel != "" {
+		gz = c.GzipLevel
+	}
 
 	switch c.Plugin {
 	case "elasticsearch":
@@ -307,7 +331,16 @@ func startSession(c *pluginCfg, scratch string) (*session, error) {
 		s.stopFns = append(s.stopFns, sink.close)
 		p, cfgAny := elasticsearch.Factory()
 		cf := cfgAny.(*elasticsearch.Config)
-		cf.Endpoints = []string{sink.url()}
+		urls, err := s.buildFleet(sink, 200, `{"took":1,"errors":false,"items":[]}`)
+		if err != nil {
+			s.stop()
+			return nil, err
+		}
+		cf.Endpoints = urls
+		if c.Mult > 0 {
+			cf.RetentionExponentMultiplier = c.Mult
+		}
+		cf.ConnectionTimeout = cfgDur(clientTimeout)
 		cf.UseGzip = c.Gzip
 		cf.GzipCompressionLevel = gz
 		cf.IndexFormat = c.IndexFormat
@@ -348,7 +381,18 @@ func startSession(c *pluginCfg, scratch string) (*session, error) {
 		s.stopFns = append(s.stopFns, sink.close)
 		p, cfgAny := httpout.Factory()
 		cf := cfgAny.(*httpout.Config)
-		cf.Endpoints = []string{sink.url() + "/ingest/"}
+		urls, err := s.buildFleet(sink, 200, "ok")
+		if err != nil {
+			s.stop()
+			return nil, err
+		}
+		for _, u := range urls {
+			cf.Endpoints = append(cf.Endpoints, u+"/ingest/")
+		}
+		if c.Mult > 0 {
+			cf.RetentionExponentMultiplier = c.Mult
+		}
+		cf.ConnectionTimeout = cfgDur(clientTimeout)
 		cf.ContentType = "application/x-ndjson"
 		if c.Raw {
 			cf.Encoding.Type = "raw"
@@ -414,9 +458,12 @@ func startSession(c *pluginCfg, scratch string) (*session, error) {
 		cf.BatchSize = cfgExpr(bs)
 		cf.BatchSizeBytes = cfgExpr(bsb)
 		cf.BatchFlushTimeout = cfgDur(flush)
-		cf.RequestTimeout = cfgDur("10s")
+		cf.RequestTimeout = cfgDur(clientTimeout)
 		cf.Retention = cfgDur("1ms")
-		cf.Retry = 10
+		cf.Retry = c.retry()
+		if c.Mult > 0 {
+			cf.RetentionExponentMultiplier = c.Mult
+		}
 		for _, cp := range c.Copies {
 			cf.CopyFields = append(cf.CopyFields, splunk.CopyField{From: cp[0], To: cp[1]})
 		}
@@ -454,12 +501,17 @@ func startSession(c *pluginCfg, scratch string) (*session, error) {
 		}
 		cf.MessageField = c.MsgField
 		cf.TimestampField = c.TsField
+		cf.RequestTimeout = cfgDur(clientTimeout)
+		cf.ConnectionTimeout = cfgDur(clientTimeout)
 		cf.WorkersCount = cfgExpr(wk)
 		cf.BatchSize = cfgExpr(bs)
 		cf.BatchSizeBytes = cfgExpr(bsb)
 		cf.BatchFlushTimeout = cfgDur(flush)
 		cf.Retention = cfgDur("1ms")
-		cf.Retry = 10
+		cf.Retry = c.retry()
+		if c.Mult > 0 {
+			cf.RetentionExponentMultiplier = c.Mult
+		}
 		lb := cf.Labels
 		test.NewConfig(cf, cfgParams)
 		cf.Labels = lb
